@@ -14,6 +14,7 @@ import numpy as np
 from EasyFEA import MatrixType, Models, Simulations
 from EasyFEA.FEM import Calc_projector
 
+from . import _suite
 from ..core import Ctx, quiet, relerr
 from ..gen import meshes as gm
 from ..ref import geometry as geo
@@ -81,6 +82,9 @@ def cases(tier: str, seed: int) -> list[dict]:
     for i, c in enumerate(out):
         c["id"] = f"C08-{i:05d}-{c['sc']}-{c['et']}-{c.get('mesh', '')}"
         c["index"] = i
+    for c in _suite.suite_cases(PROP, tier):
+        c["index"] = len(out)
+        out.append(c)
     return out
 
 
@@ -182,6 +186,8 @@ def outward_fraction(mesh, dim, per_group, face_class=None):
 
 
 def run_case(case: dict, ctx: Ctx) -> None:
+    if case.get("fam") == "suite":
+        return _suite.run_suite(case, ctx, PROP)
     rng = np.random.default_rng([case["seed"], NUM, case["index"]])
     {"reconstruct": run_reconstruct, "motion": run_motion, "normals": run_normals, "embedded": run_embedded, "locate": run_locate, "projector": run_projector, "deformed": run_deformed, "warm-translate": run_warm_translate}[case["sc"]](case, ctx, rng)
 
